@@ -14,8 +14,8 @@ for r in sys.argv[1:]:
         if d.get('repo_head') == head and (full or '--prior' in d.get('ran', '')):
             dst = '/verif/seeded/%s/meta.json' % d['case']
             old = json.load(open(dst)) if os.path.exists(dst) else {}
-            for k in ('existing_suite_still_passes', 'existing_suite_note'):
-                if k not in d and k in old and old.get('repo_head') == head:
+            for k in ('existing_suite_still_passes', 'existing_suite_note', 'existing_suite_checked_on_head'):
+                if k not in d and k in old:
                     d[k] = old[k]
             json.dump(d, open(dst, 'w'), indent=1)
             n += 1
